@@ -18,7 +18,11 @@ import time
 import traceback
 
 VERIF = os.path.dirname(os.path.dirname(os.path.abspath(__file__)))
-REPO = '/repo'
+# the code under test: /repo's working tree.  VERIF_REPO exists only so that the seeded-change matrix (tools/seeded_matrix.py) can evaluate a
+# patched scratch copy without touching /repo; every registered command runs without it, i.e. against /repo itself.
+REPO = os.environ.get('VERIF_REPO', '/repo').rstrip('/')
+# VERIF_OUT redirects evidence / replay files of matrix runs (tools/seeded_matrix.py); registered commands write to /verif
+OUT = os.environ.get('VERIF_OUT', VERIF)
 WORKERS = int(os.environ.get('VERIF_WORKERS', '16'))
 
 
@@ -175,7 +179,7 @@ def unjson(o):
 def finish(prop, tier, seed, t0, merged, coverage, assumptions, level='model_checking'):
     """write evidence + replays, print KNOWN-FINDING / VIOLATION lines, return the exit status"""
     known = known_findings(prop)
-    rdir = os.path.join(VERIF, 'replays', prop)
+    rdir = os.path.join(OUT, 'replays', prop)
     new = 0
     hit = collections.OrderedDict()
     for key, examples in merged.viol.items():
@@ -215,8 +219,8 @@ def finish(prop, tier, seed, t0, merged, coverage, assumptions, level='model_che
     cov['known_findings_hit'] = sorted(hit)
     ev = dict(property_id=prop, tier=tier, seed=seed, level=level, coverage=cov, assumptions=assumptions,
               wall_s=round(time.time() - t0, 2), violations=new)
-    os.makedirs(os.path.join(VERIF, 'evidence'), exist_ok=True)
-    with open(os.path.join(VERIF, 'evidence', prop + '.json'), 'w') as f:
+    os.makedirs(os.path.join(OUT, 'evidence'), exist_ok=True)
+    with open(os.path.join(OUT, 'evidence', prop + '.json'), 'w') as f:
         json.dump(ev, f, indent=1, sort_keys=True)
     print('%s %s: states=%s transitions=%s traces=%s violations=%d known=%d wall=%.1fs'
           % (prop, tier, cov.get('states'), cov.get('transitions'), cov.get('traces_validated_against_impl'), new,
